@@ -883,7 +883,13 @@ class NetCDFWrite(IOWrite):
         # with an index variable that spans the same dimension
         ncdims = None if create_ncdim else (ncdim,)
 
-        if not self._already_in_file(index_variable, ncdims=ncdims):
+        # ... and only with an index variable that indexes the same
+        # instance dimension
+        extra = {"instance_dimension": instance_dimension}
+
+        if not self._already_in_file(
+            index_variable, ncdims=ncdims, attributes=extra
+        ):
             ncvar = self._create_netcdf_variable_name(
                 index_variable, default="index"
             )
@@ -906,10 +912,10 @@ class NetCDFWrite(IOWrite):
                 )
 
             # Create a new index variable
-            extra = {"instance_dimension": instance_dimension}
             self._write_netcdf_variable(
                 ncvar, (ncdim,), index_variable, None, extra=extra
             )
+            g["seen"][id(index_variable)]["attributes"] = extra
 
             g["index_variable_sample_dimension"][ncvar] = sample_dimension
         else:
